@@ -10,8 +10,8 @@ class C12(Prop):
     rule = 'mixed inputs (incl. double-width characters, quoted text at the edges, legends, shapes reaching into neighbouring cells, drawing characters in row 0 and column 0) at scales {8,1,0.5,3,20,10.4,5.6,2.4,37.5,13/3}; non-trivial when the drawing has an element besides the backdrop'
     level_text = ('Theorems C12_canvas_formula / C12_empty_canvas / C12_every_cell_within (canvas = scale*(last column+2) x 2*scale*(last row+2) for every cell map), '
                   'C12_table_fragments_stay_near (T1 sweep over the translated tables: every fragment reaches at most one cell beyond its cell, and left/up only under a condition that proves a neighbour there; sound reflective check of the condition language; arcs by a sound outer box), '
-                  'C12_unicode_fragments_stay_inside, C12_catalogue_stays_inside (22 circles and all derived arcs), and the lift through the whole pipeline: C12_everything_recognised_is_inside (for every input, every fragment accepted from the cell map and every fragment of every contact group has its box - bounds and, for an arc, the box around its bulge - inside the canvas; by the pipeline invariant of Theory/PipeInv.v: merging stays in the hull, recognised rectangles are spanned by bound points, recognised circles and arcs lie within the matched cells), C12_canvas_in_ticks. Quoted text is known finding K1 (C12_quoted_refuted).')
-    level_note = 'the box around an arc is the modelled outer box of Theory/ExtentTheory.v (its soundness for the real curve is argued there, not proved); the step from fragments to the numbers in the document (scaling, text anchor) and the enclosure pass are covered by correspondence plus oracle; known finding K1 for quoted text'
+                  'C12_unicode_fragments_stay_inside, C12_catalogue_stays_inside (22 circles and all derived arcs), and the lift through the whole pipeline: C12_everything_recognised_is_inside (for every input, every fragment accepted from the cell map and every fragment of every contact group has its box - bounds and, for an arc, the box around its bulge - inside the canvas; by the pipeline invariant of Theory/PipeInv.v: merging stays in the hull, recognised rectangles are spanned by bound points, recognised circles and arcs lie within the matched cells), C12_canvas_in_ticks, and down to the numbers of the document: C12_document_points_inside (for every input and every scale >= 0, every coordinate written into every drawing node and every node of every <g> group - the scaled ends, corners, circle boxes, polygon points and text anchors of the fragments the enclosure pass emits - lies between 0 and the canvas width / height, quoted text excepted). Quoted text is known finding K1 (C12_quoted_refuted).')
+    level_note = 'the box around an arc is the modelled outer box of Theory/ExtentTheory.v (its soundness for the real curve is argued there, not proved); that fragment_node writes exactly the scaled tick_points is read off its definition (Model/Lib.v) and compared with the implementation by the emit-stage correspondence; known finding K1 for quoted text'
     def make(self, gen, text, spec):
         return single(gen, text, spec, 'settings', factory=lambda t: self.make(gen, t, spec))
     def items(self, rng, tier):
